@@ -25,10 +25,16 @@ _built: Dict[str, Any] = {}
 
 def class_source(shape: dict) -> str:
     lines = ["from dataclasses import dataclass, field, InitVar", "from typing import Generic, TypeVar",
-             "from apischema.fields import with_fields_set", "from apischema.metadata import default_as_set", "T = TypeVar('T')", ""]
+             "from apischema.fields import with_fields_set", "from apischema.metadata import default_as_set, flatten", "T = TypeVar('T')", ""]
     generic = shape.get("generic")
 
+    for f in shape["fields"]:
+        if f["kind"] == "flat":     # the flattened class has ONE field, named like the field holding it: same key
+            lines += ["@dataclass", f"class In_{f['name']}:", f"    {f['name']}: int = 0", ""]
+
     def fld(f):
+        if f["kind"] == "flat":
+            return f"    {f['name']}: In_{f['name']} = field(default_factory=In_{f['name']}, metadata=flatten)"
         tp = "InitVar[int]" if f["kind"] == "initvar" else "T" if generic and f["name"] == "g" else "int"
         args = []
         if not f["req"]:
@@ -80,17 +86,22 @@ def run_ops(shape: dict, ops: List[dict]) -> dict:
     mod = build(shape)
     K = mod.K
     obj = None
+    flat = {f["name"] for f in shape["fields"] if f["kind"] == "flat"}
+
+    def val(n, x):
+        return getattr(mod, "In_" + n)(x) if n in flat else x
+
     try:
         for op in ops:
             names = list(op["names"])
             if op["op"] == "construct":
-                obj = K(**{n: 1 for n in names})
+                obj = K(**{n: val(n, 1) for n in names})
             elif op["op"] == "construct_pos":
-                obj = K(*([1] * len(names)))
+                obj = K(*[val(f["name"], 1) for f in [g for g in shape["fields"] if g["kind"] != "noinit"][:len(names)]])
             elif op["op"] == "deserialize":
                 obj = deserialize(K, {n: 1 for n in names})
             elif op["op"] == "setattr":
-                setattr(obj, names[0], 2)
+                setattr(obj, names[0], val(names[0], 2))
             elif op["op"] == "set_fields":
                 set_fields(obj, *names)
             elif op["op"] == "set_fields_overwrite":
@@ -98,7 +109,7 @@ def run_ops(shape: dict, ops: List[dict]) -> dict:
             elif op["op"] == "unset_fields":
                 unset_fields(obj, *names)
             elif op["op"] == "replace":
-                obj = replace(obj, **{n: 3 for n in names})
+                obj = replace(obj, **{n: val(n, 3) for n in names})
         if shape.get("generic"):      # the parametrised form must behave as the class
             if sorted(serialize(K[int], obj)) != sorted(serialize(K, obj)):
                 return {"exc": f"serialize(K[int], obj) keys {sorted(serialize(K[int], obj))} differ from serialize(K, obj) {sorted(serialize(K, obj))}"}
